@@ -135,3 +135,32 @@ Proof.
     destruct (pt_slice p); [|destruct t]; intro Hx0; inversion Hx0. }
   apply (wired_point_required _ _ _ _ _ _ Hw Hr). rewrite remove_nil_map_Some. exact Hl.
 Qed.
+
+(* ---- extended semantics (Model/FactoryX.v): Init methods that call back into the factory, post-processors that
+   short-circuit instantiation ------------------------------------------------------------------------------ *)
+From IocVerif Require Import Model.FactoryX Proofs.FactoryXProofs Proofs.FactoryXLog.
+
+Theorem c09_no_hang_extended : forall vt s x, nofuel (snd (run_xt vt s x)).
+Proof. exact run_xt_terminates. Qed.
+
+(* a successful start reached no failing callback; contrapositive: any fault that is reached makes Run fail *)
+Theorem c09_fault_fails_extended : forall s x o st,
+  run_xt repaired s x = (o, Ok st) -> s_loader_fail s = false /\ Forall (clean s) (log st).
+Proof.
+  intros s x o st H. destruct (run_core_xt_log_ok repaired (normalise repaired s) x o st H) as [Hl [st2 [Hlog [Hg Hn]]]].
+  split; [exact Hl|]. rewrite Hlog. apply Forall_app. split.
+  - apply Forall_rev. apply Forall_forall. intros e He. apply in_map_iff in He.
+    destruct He as [n [<- Hin]]. cbn [clean]. apply Hn. exact Hin.
+  - eapply Forall_impl; [|exact Hg]. intros e [_ Hc]. exact Hc.
+Qed.
+
+(* no runner is invoked when the start fails before the runner phase *)
+Theorem c09_no_runner_after_failure_extended : forall s x o k st,
+  run_xt repaired s x = (o, Fail k st) ->
+  Forall (fun e => is_run e = false) (log st) \/
+  exists n l, log st = EvRun n :: l /\ runner_fails s n = true.
+Proof.
+  intros s x o k st H. destruct (run_core_xt_log_fail repaired (normalise repaired s) x o k st H) as [Hn|Hr].
+  - left. exact Hn.
+  - right. destruct Hr as [st2 [pre [n [post [_ [Hf [_ [Hl _]]]]]]]]. exists n. eexists. split; [exact Hl|exact Hf].
+Qed.
